@@ -128,6 +128,25 @@ func (w *tbWorld) fresh(name string) bool {
 	return can
 }
 
+// freshFails: does a memo-free evaluation of the rule's condition fail (error or panic) on the current facts?
+func (w *tbWorld) freshFails(name string) bool {
+	w.ref.WorkingMemory.ResetAll()
+	re := w.ref.RuleEntries[name]
+	if re == nil {
+		return false
+	}
+	if re.WhenScope != nil {
+		deepReset(re.WhenScope.Expression, 0)
+	}
+	hc, gc, ic := w.f.HeavyCalls, w.f.GetICalls, w.f.ItemCalls()
+	_, err := re.Evaluate(context.Background(), w.dc, w.ref.WorkingMemory)
+	w.f.HeavyCalls, w.f.GetICalls = hc, gc
+	if len(w.f.items) > 0 {
+		w.f.items[0].Calls = ic
+	}
+	return err != nil
+}
+
 func (w *tbWorld) BeginCycle(ctx context.Context, cycle uint64) { w.cycles = cycle }
 
 func (w *tbWorld) EvaluateRuleEntry(ctx context.Context, cycle uint64, e *ast.RuleEntry, cand bool) {
@@ -350,11 +369,12 @@ func tbInvalidates(re *ast.RuleEntry, what int) bool {
 var tbSets = map[string][]string{
 	"json":    {"j_basic"},
 	"memo":    {"b_basic", "b_toplevel", "b_slice_sel", "b_slice", "b_map", "b_nested", "b_short", "b_shared", "b_forget", "b_ptrswap", "b_forgetcall", "b_chain", "b_failshared", "b_elemfield", "m_multires", "m_partial", "b_elemheavy", "b_substr"},
-	"control": {"b_retract", "b_fail", "b_nilptr", "b_actfail", "b_completefail", "b_parenfail"},
+	"control": {"b_retract", "b_fail", "b_nilptr", "b_actfail", "b_completefail", "b_parenfail", "b_kind"},
 	"values":  {"b_compound", "b_args", "b_float", "b_string", "b_ifacebool"},
 	"reuse":   {"b_unread", "b_retract", "b_basic", "b_writeonly", "b_complete"},
 	"reuseq":  {"b_unread", "b_basic", "b_writeonly", "b_complete"},
-	"dbg":     {"b_elemfield"},
+	"failing": {"b_kind", "b_fail", "b_nilptr", "b_parenfail"},
+	"dbg":     {"b_kind"},
 	"fetch":   {"b_basic", "b_short", "b_map", "b_slice", "b_nested", "b_shared", "b_ifacebool"},
 	"clone":   {"b_paren", "b_argshare", "b_shared", "b_short", "b_retract", "b_map", "b_slice_sel", "b_forgetcall", "two"},
 }
@@ -386,6 +406,16 @@ func VerifTierBRun(tmpl string, maxCycle int, flags int) {
 		}
 	}
 	eng := &engine.GruleEngine{MaxCycle: uint64(maxCycle), Listeners: []engine.GruleEngineListener{w}}
+	var failing0 []string
+	if flags&8 != 0 {
+		// ReturnErrOnFailedRuleEvaluation: which active rules' conditions fail on the initial facts (memo-free)?
+		eng.ReturnErrOnFailedRuleEvaluation = true
+		for _, n := range w.names {
+			if re := w.kb.RuleEntries[n]; !re.Deleted && w.freshFails(n) {
+				failing0 = append(failing0, n)
+			}
+		}
+	}
 	pre := snapFact(w.f, w.topN())
 	preJ := snapJSON(w.json)
 	var err error
@@ -403,6 +433,24 @@ func VerifTierBRun(tmpl string, maxCycle int, flags int) {
 		return
 	}
 	verif.Reach("tierB:execute-returned")
+	if flags&8 != 0 {
+		if len(failing0) > 0 {
+			verif.Reach("tierB:flag-set-and-a-condition-fails")
+			verif.Assert(w.L("C14:condition-failure-is-returned-when-the-flag-is-set"), err != nil)
+			if err != nil {
+				named := false
+				for _, n := range failing0 {
+					if strings.Contains(err.Error(), n) {
+						named = true
+					}
+				}
+				verif.Assert(w.L("C14:condition-error-names-the-rule"), named)
+			}
+			verif.Assert(w.L("C14:no-rule-fires-when-the-first-evaluation-phase-fails"), len(w.fired) == 0)
+			w.frame(pre, w.topN(), map[string]bool{}) // nothing fired: nothing changed
+		}
+		return
+	}
 	// C04 frame condition: only what the fired rules address may have changed
 	may := map[string]bool{}
 	invalidations, invalidations0 := 0, 0
@@ -526,6 +574,13 @@ var tbPost = map[string]func(w *tbWorld, pre factSnap, err error){
 			verif.Assert(w.L("C14:rule-with-a-failing-condition-does-not-fire"), verif.And(pre.f.In >= 0, pre.f.In+n-1 <= 2))
 		}
 		verif.Assert(w.L("C14:condition-failures-are-contained-by-default"), err == nil || strings.Contains(err.Error(), "successfully selected"))
+	},
+	// C14: kind mismatch, missing fact, missing key: contained; the healthy rule is not disturbed
+	"b_kind": func(w *tbWorld, pre factSnap, err error) {
+		fs := firedSet(w)
+		verif.Assert(w.L("C14:condition-failures-are-contained-by-default"), err == nil)
+		verif.Assert(w.L("C14:rule-with-a-failing-condition-does-not-fire"), fs["K1"] == 0 && fs["K2"] == 0 && fs["K5"] == 0)
+		verif.Assert(w.L("C14:healthy-rule-not-disturbed-by-a-failing-sibling"), verif.Implies(pre.f.I8 < 1, fs["K4"] > 0))
 	},
 	"b_nilptr": func(w *tbWorld, pre factSnap, err error) {
 		verif.Assert(w.L("C14:condition-failures-are-contained-by-default"), err == nil)
